@@ -5,7 +5,9 @@ MC : MC_C08.tla over Runtime.tla: ALL interleavings of ingest / submit / tickete
      missing routes, SetPolicy (AcceptAll, KindFilter, Budget 0..2, with eviction on tightening) and scheduler
      passes. State invariants AtMostOncePerHead, CommittedIsLog, PendingIsSet, CorrelationsSound,
      FaultIndexesConsistent; transition laws RetryChangesNothing, IngestDisposition, AdmittedLaw
-     (= AdmittedInIdOrder + budget semantics), NothingLost.
+     (= AdmittedInIdOrder + budget semantics), NothingLost. One cfg adds ResolveFault after the only failure this model
+     contains (one ticket staged for two submissions => rolled-back pass), so at-most-once is also checked ACROSS a failed
+     pass: what was committed before it must still be Duplicate after rollback + recovery.
 RP : EVERY TRANSITION of the explored state graph (also those into known states) is exported with a witness
      path to its source state and replayed into the real WorldlineRuntime (ingest, submit_intent,
      ingest_ticketed_invocation with host_test tickets, verif_set_inbox_policy, super_tick); dispositions,
@@ -26,10 +28,10 @@ import random
 from lib import *
 
 RUNS = {
-    "quick": [("MC_C08_quick.cfg", "", False), ("MC_C08_quick_tkt.cfg", "b", False)],
+    "quick": [("MC_C08_quick.cfg", "", False), ("MC_C08_quick_tkt.cfg", "b", False), ("MC_C08_quick_fail.cfg", "", True)],
     "thorough": [("MC_C08_thorough_a.cfg", "", False), ("MC_C08_thorough_b.cfg", "b", False),
                  ("MC_C08_thorough_c.cfg", "c", True), ("MC_C08_thorough_d.cfg", "d", False),
-                 ("MC_C08_quick.cfg", "e", False), ("MC_C08_quick_tkt.cfg", "f", False)],
+                 ("MC_C08_quick.cfg", "e", False), ("MC_C08_quick_tkt.cfg", "f", False), ("MC_C08_quick_fail.cfg", "g", True)],
 }
 
 
@@ -120,6 +122,10 @@ def run(tier, replay=None):
         for c, r in zip(cases, results):
             total += 1
             slim = {"leg": "rp", "cfg": cfg, "salt": salt, "w2": w2, "cases": [c]}
+            # (model-derived, counted whatever the real verdict is)
+            if (c["path"][-1]["a"] == "ingest" and c["r"].get("disp") == "Duplicate" and any(o["a"] == "resolve" for o in c["path"])
+                    and any(x.get("h") == c["r"].get("head") and x.get("i") == c["path"][-1]["i"] for x in c["s"].get("comm", []))):
+                acts["ingest/duplicate_of_committed_after_rolled_back_pass_and_recovery"] = acts.get("ingest/duplicate_of_committed_after_rolled_back_pass_and_recovery", 0) + 1
             if r["verdict"] == "tool_error":
                 raise ToolError(f"harness: {r.get('detail')}")
             if r["verdict"] == "violation":
@@ -141,7 +147,8 @@ def run(tier, replay=None):
         del cases, results
     if not replay:
         for need in ("ingest/accepted", "ingest/duplicate", "ingest/refused", "submit/accepted", "submit/duplicate",
-                     "stage/accepted", "stage/duplicate", "stage/refused", "policy", "tick/commits", "tick/empty"):
+                     "stage/accepted", "stage/duplicate", "stage/refused", "policy", "tick/commits", "tick/empty", "tick/failed", "resolve",
+                     "ingest/duplicate_of_committed_after_rolled_back_pass_and_recovery"):
             if not acts.get(need):
                 raise ToolError(f"vacuous replay: no transition of kind {need}: {acts}")
 
